@@ -9,9 +9,11 @@ package main
 // clearchat are computed here from the property text, not from the model.
 
 import (
+	"encoding/json"
 	"fmt"
 	"sort"
 	"strings"
+	"time"
 
 	"github.com/jech/galene/group"
 
@@ -29,6 +31,9 @@ type tagInfo struct {
 	typ      string
 	deliver  bool // the property says the message is forwarded
 	why      string
+	// the server's clock around the moment the message was handed to it
+	t0, t1 time.Time
+	extras string
 }
 
 // one entry of the history the property prescribes
@@ -65,6 +70,28 @@ func newMonitors(h *hist) *monitors {
 var serverKinds = map[string]bool{"error": true, "kicked": true, "warning": true, "userinfo": true,
 	"token": true, "tokenlist": true, "clearchat": true}
 
+// tagOf: the tag the driver put into a message value: the value itself, the
+// field "tag" of a map, or the first element of a list.
+func tagOf(v interface{}) string {
+	switch x := v.(type) {
+	case string:
+		return x
+	case map[string]interface{}:
+		s, _ := x["tag"].(string)
+		return s
+	case []interface{}:
+		if len(x) > 0 {
+			s, _ := x[0].(string)
+			return s
+		}
+	}
+	return ""
+}
+
+// the fields the server puts into a relayed chat / usermessage / chathistory
+var relayedFields = map[string]bool{"type": true, "kind": true, "id": true, "source": true, "dest": true,
+	"username": true, "privileged": true, "time": true, "value": true, "noecho": true}
+
 func isChatLike(t string) bool { return t == "chat" || t == "usermessage" || t == "chathistory" }
 
 func us(p *string) string {
@@ -82,9 +109,9 @@ func (mo *monitors) onReceive(c *cl, m sigdrv.Msg) {
 	}
 	t := mo.h.t
 	t.Checked("C15.authentic")
-	v, isStr := m.Value.(string)
+	v := tagOf(m.Value)
 	ti := mo.tags[v]
-	if !isStr || ti == nil {
+	if v == "" || ti == nil {
 		// not one of ours: it must be one of the server's own messages
 		ok := m.Source == "" &&
 			((m.Type == "usermessage" && m.Privileged && serverKinds[m.Kind]) ||
@@ -107,6 +134,7 @@ func (mo *monitors) onReceive(c *cl, m sigdrv.Msg) {
 		t.Checked("C15.spoof_closes")
 		t.Fail("C15", "spoof_closes", fmt.Sprintf("client %d was sent %s %q although the message had to be refused (%s)", c.h, m.Type, v, ti.why))
 	}
+	mo.serverFields(c, m, ti, v)
 	if m.Type == "chathistory" {
 		if ti.op && !m.Privileged {
 			t.Note("known:replayed-operator-message-not-privileged")
@@ -121,6 +149,39 @@ func (mo *monitors) onReceive(c *cl, m sigdrv.Msg) {
 	if m.Privileged != ti.op {
 		t.Fail("C15", "privileged", fmt.Sprintf("client %d was sent %s %q with privileged=%v; its sender (client %d) held op: %v",
 			c.h, m.Type, v, m.Privileged, ti.sender.h, ti.op))
+	}
+}
+
+// serverFields: C15.server_fields.  Every field of a relayed or replayed
+// message other than the ones copied from the sender's message (kind,
+// source, dest, username, value, noecho, and the id when the sender gave one)
+// is the server's: nothing else the sender put into its message gets
+// through (permissions, status, data, group, error, ...), and the time is
+// the server's clock at the moment it handled the message, not the sender's.
+func (mo *monitors) serverFields(c *cl, m sigdrv.Msg, ti *tagInfo, v string) {
+	t := mo.h.t
+	t.Checked("C15.server_fields")
+	var raw map[string]interface{}
+	if err := json.Unmarshal(m.Raw, &raw); err != nil {
+		t.Fail("C15", "server_fields", fmt.Sprintf("client %d was sent an undecodable %s %q", c.h, m.Type, v))
+		return
+	}
+	for k := range raw {
+		if !relayedFields[k] {
+			t.Fail("C15", "server_fields", fmt.Sprintf("client %d was sent %s %q carrying the field %q = %v, which only its sender (client %d, extra fields %s) can have put there",
+				c.h, m.Type, v, k, raw[k], ti.sender.h, ti.extras))
+		}
+	}
+	ts, _ := raw["time"].(string)
+	tm, err := time.Parse(time.RFC3339, ts)
+	if err != nil {
+		t.Fail("C15", "server_fields", fmt.Sprintf("client %d was sent %s %q with time %q", c.h, m.Type, v, ts))
+		return
+	}
+	// RFC3339 has one-second resolution
+	if tm.Before(ti.t0.Add(-2*time.Second)) || tm.After(ti.t1.Add(2*time.Second)) {
+		t.Fail("C15", "server_fields", fmt.Sprintf("client %d was sent %s %q with time %s; the server handled it between %s and %s (sender's extra fields: %s)",
+			c.h, m.Type, v, ts, ti.t0.Format(time.RFC3339), ti.t1.Format(time.RFC3339), ti.extras))
 	}
 }
 
@@ -154,10 +215,10 @@ func (mo *monitors) onPump(c *cl) {
 		}
 		for k := range want {
 			e, m := want[k], got[k]
-			if m.Id != e.id || m.Source != e.source || m.Kind != e.kind || m.ValueString() != e.value ||
+			if m.Id != e.id || m.Source != e.source || m.Kind != e.kind || tagOf(m.Value) != e.value ||
 				(m.Username == nil) != (e.user == nil) || (m.Username != nil && *m.Username != *e.user) || m.Dest != "" {
 				t.Fail("C15", "history_replay", fmt.Sprintf("client %d joining %s: replayed message %d is id=%q source=%q username=%s kind=%q value=%q, expected id=%q source=%q username=%s kind=%q value=%q",
-					c.h, g, k, m.Id, m.Source, us(m.Username), m.Kind, m.ValueString(), e.id, e.source, us(e.user), e.kind, e.value))
+					c.h, g, k, m.Id, m.Source, us(m.Username), m.Kind, tagOf(m.Value), e.id, e.source, us(e.user), e.kind, e.value))
 				break
 			}
 		}
@@ -190,7 +251,7 @@ func bucket(n int) int {
 func msgIDs(ms []sigdrv.Msg) []string {
 	var out []string
 	for _, m := range ms {
-		out = append(out, m.Id+"/"+m.ValueString())
+		out = append(out, m.Id+"/"+tagOf(m.Value))
 	}
 	return out
 }
@@ -234,8 +295,7 @@ func (s snap) membersOf(g string) []*cl {
 func toEntries(raw []group.ChatHistoryEntry) []entry {
 	var out []entry
 	for _, e := range raw {
-		v, _ := e.Value.(string)
-		out = append(out, entry{id: e.Id, source: e.Source, user: e.User, kind: e.Kind, value: v})
+		out = append(out, entry{id: e.Id, source: e.Source, user: e.User, kind: e.Kind, value: tagOf(e.Value)})
 	}
 	return out
 }
@@ -324,7 +384,7 @@ func requiredPermission(m *smsg) string {
 
 func countTagged(ms []sigdrv.Msg, typ, v string) (n int, first sigdrv.Msg) {
 	for _, m := range ms {
-		if m.Type == typ && m.ValueString() == v {
+		if m.Type == typ && tagOf(m.Value) == v {
 			if n == 0 {
 				first = m
 			}
@@ -365,7 +425,8 @@ func (h *hist) sendChat(c *cl, m *smsg) {
 	v := m.Value.S
 	spoofSource := m.Source != "" && m.Source != c.id
 	spoofUser := m.User != nil && *m.User != username
-	ti := &tagInfo{sender: c, senderID: c.id, username: username, op: has(perms, "op"), typ: m.Type}
+	ti := &tagInfo{sender: c, senderID: c.id, username: username, op: has(perms, "op"), typ: m.Type,
+		t0: time.Now(), extras: fmt.Sprint(m.Extra)}
 	switch {
 	case spoofSource || spoofUser:
 		ti.why = "it claims another client's id or username"
@@ -377,7 +438,9 @@ func (h *hist) sendChat(c *cl, m *smsg) {
 		ti.deliver = true
 	}
 	mo.tags[v] = ti
+	ti.t1 = ti.t0.Add(time.Minute) // until the call has returned
 	sr := h.msg(c, m)
+	ti.t1 = time.Now()
 	if sr.auth == "dead" || sr.auth == "panic" {
 		return
 	}
@@ -583,7 +646,7 @@ func (h *hist) sendClearchat(c *cl, m *smsg, id, userID string, malformed bool) 
 		n := 0
 		for _, mm := range x.log[mark[x]:] {
 			if mm.Type == "usermessage" && mm.Kind == "clearchat" {
-				if _, tagged := mo.tags[mm.ValueString()]; !tagged {
+				if _, tagged := mo.tags[tagOf(mm.Value)]; !tagged || tagOf(mm.Value) == "" {
 					n++
 					if !mm.Privileged || mm.Source != "" {
 						t.Fail("C15", "clearchat", fmt.Sprintf("%s: client %d received the notification with privileged=%v source=%q", what, x.h, mm.Privileged, mm.Source))
